@@ -124,13 +124,27 @@ class World:
             st = self.states[s]["store"]
             g = st.get_graph("g:surface")
             w = 0.1 if g.edges["e1"].weight == 0.9 else 0.9
-            st.upsert_edges("g:surface", [Edge(id="e1", src="n:apple", dst="n:banana", weight=w, rel="supports")])
+            self.nedits = getattr(self, "nedits", 0) + 1
+            if self.nedits % 2 == 0:
+                # read-modify-write through the public API: the caller changes the Edge object it got from the store and
+                # upserts that same object
+                e = g.edges["e1"]
+                e.weight = w
+                st.upsert_edges("g:surface", [e])
+            else:
+                st.upsert_edges("g:surface", [Edge(id="e1", src="n:apple", dst="n:banana", weight=w, rel="supports")])
         elif name == "edit_dst":
             # the same edge (id, source, weight, relation) pointed at another node and back
             st = self.states[s]["store"]
             g = st.get_graph("g:surface")
             dst = "n:cherry" if g.edges["e1"].dst == "n:banana" else "n:banana"
-            st.upsert_edges("g:surface", [Edge(id="e1", src="n:apple", dst=dst, weight=g.edges["e1"].weight, rel="supports")])
+            self.nedits = getattr(self, "nedits", 0) + 1
+            if self.nedits % 2 == 1:
+                e = g.edges["e1"]           # (read-modify-write of the stored object, see edit_weight)
+                e.dst = dst
+                st.upsert_edges("g:surface", [e])
+            else:
+                st.upsert_edges("g:surface", [Edge(id="e1", src="n:apple", dst=dst, weight=g.edges["e1"].weight, rel="supports")])
         elif name == "swap_labels":
             # two nodes swap their labels: the label set stays, the node that carries "story" changes
             st = self.states[s]["store"]
@@ -178,8 +192,15 @@ class World:
         def spy(ctx_, state_, t1, t2, *a, **k):
             seen["t1"], seen["t2"] = _proj_t1(t1), _proj_t2(t2)
             return real(ctx_, state_, t1, t2, *a, **k)
+        # the text token of the history is spelled differently from turn to turn (case, inner whitespace): T1 seeds
+        # case-insensitively but T2 embeds the exact string, so two spellings are two different inputs -- a key that
+        # folds them serves one spelling's result for the other (both runs, caches on and off, use the same spellings)
+        self.nspell = getattr(self, "nspell", {})
+        k_ = self.nspell.get(ev["t"], 0)
+        self.nspell[ev["t"]] = k_ + 1
+        text = [ev["t"], ev["t"].capitalize(), ev["t"].upper() + "  " + ev["t"], ev["t"]][k_ % 4]
         with E.LogCapture(), E.patched_attr(health, check_and_log=spy):
-            orch.run_turn(ctx, self.states[ev["s"]], ev["t"])
+            orch.run_turn(ctx, self.states[ev["s"]], text)
         return seen
 
 
